@@ -308,6 +308,23 @@ def search(ctx):
             ctx.case(json.dumps(['entry', name, key]))
             check_entry(ctx, name, db, key)
             ctx.count('entries:' + name)
+    # (1b) quick tier: every entry is at least decoded (the full evaluation of every entry is the thorough tier's)
+    if ctx.tier != 'thorough':
+        for name, db in dbs.items():
+            allowed = AIG_TYPES if name == 'aig' else XAIG_TYPES
+            n_bad = 0
+            for key in db._dict.keys():
+                try:
+                    c = db.get_by_label(key)
+                    ok = len(c.outputs) == key.count('_') + 1 and all(g.gate_type.name in allowed for g in c.gates.values())
+                except Exception as e:  # noqa: BLE001
+                    ok = False
+                if not ok:
+                    n_bad += 1
+                    if n_bad <= 3:
+                        ctx.case(json.dumps(['entry', name, key]))
+                        check_entry(ctx, name, db, key)
+            ctx.count('entries_decoded:' + name, len(db._dict))
     # (2) fully defined lookups
     for name, db in dbs.items():
         for n, m, limit in ((2, 1, None), (2, 2, None), (2, 3, None), (3, 1, None), (3, 2, ctx.scale(1500, 20000)), (3, 3, ctx.scale(2500, 40000))):
